@@ -74,6 +74,11 @@ func crun(args []string) int {
 					return 2
 				}
 				recs = append(recs, rs...)
+				// one execution of this scenario that does not terminate is a verdict: the goroutines left behind
+				// hold the logs' locks, and every further execution would wait for its own watchdog
+				if n := len(rs); n > 0 && rs[n-1].K == "final" && !rs[n-1].AllDone {
+					break
+				}
 			}
 		} else {
 			recs, err = cdriver.RunScenario(ctx, cfg, pool, reg, sid, scen)
